@@ -164,6 +164,11 @@ class Ctx:
                     return False, out
             tg = ["theories/%s.vo" % t for t in targets]
             rc, out = sh(["timeout", "3000", "make", "-f", "Makefile.coq", "-j16"] + tg, cwd=COQ)
+            if rc == 0 and tg:
+                # the correspondence files (*Corr.v) are loaded by the generated case files, not by the property files:
+                # bring them up to date with the models as well (a stale .vo would show up as an evaluation error)
+                corr = ["theories/%s.vo" % f[:-2] for f in sorted(os.listdir(THEORIES)) if f.endswith("Corr.v")]
+                sh(["timeout", "3000", "make", "-k", "-f", "Makefile.coq", "-j16"] + corr, cwd=COQ)
             return rc == 0, out
 
     def coqc(self, vfile, timeout=1800, extra_q=()):
